@@ -4,6 +4,8 @@ package transport
 
 import (
 	"fmt"
+	"runtime"
+	"sync/atomic"
 	"time"
 	"sync"
 	"testing"
@@ -133,6 +135,9 @@ func vWriteQuotaExec(cfg []int64, ops [][]int64) (obs [][]int64, nt bool, tags [
 		panic(fmt.Sprintf("verif WriteQuota: case did not finish within 60s (hang or livelock in the implementation) cfg=%v nops=%d", cfg, len(ops)))
 	})
 	defer wd.Stop()
+	if len(cfg) > 1 && cfg[1] == 2 {
+		return vWriteQuotaStressCase(cfg, ops)
+	}
 	var pv any
 	synctest.Test(vWriteQuotaT, func(t *testing.T) {
 		defer func() {
@@ -148,7 +153,97 @@ func vWriteQuotaExec(cfg []int64, ops [][]int64) (obs [][]int64, nt bool, tags [
 	return
 }
 
+// ---- stress mode: cfg [init, 2], op [4, gets in thousands, sz] ------------------------
+//
+// Real goroutines, real clock: a sender calls get(sz) back to back, a replenisher gives
+// back exactly what was taken (so the quota keeps crossing zero and the load/add/select
+// instructions of the two sides interleave freely).  A sender that makes no progress for
+// 2 s although everything it took was replenished, quota > 0 and the channel is empty is a
+// lost wake-up (excluded for every instruction interleaving by C17_no_lost_wakeup).
+func vWriteQuotaStressPair(ini int32, ngets int64, sz int32, lost, hung *atomic.Int64) {
+	done := make(chan struct{})
+	var w writeQuota
+	w.init(ini, done)
+	var taken, given atomic.Int64
+	var senderDone, loopyDone atomic.Bool
+	go func() {
+		defer senderDone.Store(true)
+		for i := int64(0); i < ngets; i++ {
+			if w.get(sz) != nil {
+				return
+			}
+			taken.Add(1)
+		}
+	}()
+	go func() {
+		defer loopyDone.Store(true)
+		for given.Load() < ngets {
+			for given.Load() >= taken.Load() {
+				if senderDone.Load() && given.Load() >= taken.Load() {
+					return
+				}
+				runtime.Gosched()
+			}
+			w.replenish(int(sz))
+			given.Add(1)
+		}
+	}()
+	last, lastChange := int64(-1), time.Now()
+	for !(senderDone.Load() && loopyDone.Load()) {
+		time.Sleep(5 * time.Millisecond)
+		if tk := taken.Load(); tk != last {
+			last, lastChange = tk, time.Now()
+			continue
+		}
+		idle := time.Since(lastChange)
+		if idle > 2*time.Second && !senderDone.Load() && given.Load() == taken.Load() &&
+			atomic.LoadInt32(&w.quota) > 0 && len(w.ch) == 0 {
+			lost.Add(1)
+			break
+		}
+		if idle > 20*time.Second {
+			hung.Add(1)
+			break
+		}
+	}
+	close(done) // releases a parked sender; the replenisher stops once the sender is done
+	for !(senderDone.Load() && loopyDone.Load()) {
+		time.Sleep(time.Millisecond)
+	}
+}
+
+func vWriteQuotaStressCase(cfg []int64, ops [][]int64) (obs [][]int64, nt bool, tags []string) {
+	for _, op := range ops {
+		if len(op) != 3 || op[0] != 4 {
+			continue
+		}
+		var lost, hung atomic.Int64
+		const pairs = 4
+		fin := make(chan struct{}, pairs)
+		for p := 0; p < pairs; p++ {
+			go func() {
+				vWriteQuotaStressPair(int32(cfg[0]), op[1]*1000, int32(op[2]), &lost, &hung)
+				fin <- struct{}{}
+			}()
+		}
+		for p := 0; p < pairs; p++ {
+			<-fin
+		}
+		obs = append(obs, []int64{lost.Load(), hung.Load()})
+		nt = true
+	}
+	return obs, nt, []string{"stress"}
+}
+
 func vWriteQuotaGen(r *vRand, tier string, idx int) ([]int64, [][]int64) {
+	if idx == 1 || (tier == "thorough" && idx%100 == 51) {
+		// instruction-level interleavings of get and replenish, sampled by real goroutines
+		k := int64(400)
+		if tier == "thorough" {
+			k = 1500
+		}
+		return []int64{21, 2}, [][]int64{{4, k, 2}}
+	}
 	if idx == 0 {
 		// concurrent senders on one stream: the second blocked sender is not woken although
 		// quota is positive again (one token, two waiters) -- replayed on the real code
